@@ -249,9 +249,19 @@ impl World {
             Delivery::Replay(i) => pick(log, *i).unwrap_or(garbage),
             Delivery::Garbage => {
                 let n = rng.gen_range(0..20);
-                let b: Vec<u8> = (0..n).map(|_| rng.gen()).collect();
-                // only claim "garbage" for inputs that are not a SessionData map
-                if crate::runner::from_bytes(&b).map(|v| v.is_map()).unwrap_or(false) { garbage } else { (b, arr(vec![uint(0)])) }
+                let mut b: Vec<u8> = (0..n).map(|_| rng.gen()).collect();
+                if rng.gen_bool(0.25) {
+                    // shapes at the edge of what the decoder takes for a SessionData
+                    let specials: [&[u8]; 8] = [&[0x82, 0x41, 0x00, 0xf6], &[0x81, 0x41, 0x00], &[0xa0], &[0xa1, 0x64, b'd', b'a', b't', b'a', 0x41, 0x00], &[0x80], &[0x82, 0xf6, 0x14],
+                                                &[0xa1, 0x66, b's', b't', b'a', b't', b'u', b's', 0x14], &[0xbf, 0xff]];
+                    b = specials[rng.gen_range(0..specials.len())].to_vec();
+                }
+                // classify the bytes as the wire decoder does (C16's subject; here an oracle): random bytes CAN be a
+                // SessionData — serde also reads a struct from an array, e.g. 82 41 xx f6
+                match isomdl::cbor::from_slice::<isomdl::definitions::SessionData>(&b) {
+                    Err(_) => (b, arr(vec![uint(0)])),
+                    Ok(sd) => if sd.data.is_some() { (b, sym_junk()) } else { (b, arr(vec![uint(1)])) },
+                }
             }
             Delivery::NoData => (session_data(None, Some(20)), arr(vec![uint(1)])),
             Delivery::BitFlip(i, bit) => match pick(log, *i) {
